@@ -32,7 +32,7 @@ var kf *known.File
 
 func TestMain(m *testing.M) {
 	kf, _ = known.Load(ev.KnownFile())
-	rec.Rule("finite and enumerated completely: every service method, message, field, nested type, enum and enum value of deps_dev.v3 (embedded descriptor of the generated Go package) is compared with its deps_dev.v3alpha counterpart (number, kind, type, cardinality, oneof, JSON name, streaming flags, HTTP binding modulo the version prefix); every declaration parsed from the two committed .proto sources is compared both ways with the embedded descriptors, and the gRPC method tables with the service descriptors; every tagged field of every generated Go message struct is bound to the descriptor as the generator binds it (tag number and name name a field of the message, the Go field name is the Go spelling of that name, and a value written through the Go field is read back through the descriptor); every Go constant of an enum, read from the committed api.pb.go, has the Go type of its enum and the number of the enum value it is named after, and every enum value has its constant; in addition random instances of every v3 message are marshalled and read back as the v3alpha message of the same name (no unknown fields, identical deterministic bytes, identical JSON). One evaluation = one descriptor element compared or one wire round trip. Non-trivial: every descriptor element (each is a distinct obligation); round trips with >= 3 populated fields. Distinct = distinct element path / distinct message bytes.")
+	rec.Rule("finite and enumerated completely: every service method, message, field, nested type, enum and enum value of deps_dev.v3 (embedded descriptor of the generated Go package) is compared with its deps_dev.v3alpha counterpart (number, kind, type, cardinality, oneof, JSON name, streaming flags, HTTP binding modulo the version prefix); every declaration parsed from the two committed .proto sources is compared both ways with the embedded descriptors, and the gRPC method tables with the service descriptors; every tagged field of every generated Go message struct is bound to the descriptor as the generator binds it (tag number and name name a field of the message, the Go field name is the Go spelling of that name, and a value written through the Go field is read back through the descriptor); every Go constant of an enum, read from the committed api.pb.go, has the Go type of its enum and the number of the enum value it is named after, and every enum value has its constant; in addition random instances of every v3 message are marshalled and read back as the v3alpha message of the same name (no unknown fields, identical deterministic bytes, identical JSON). One evaluation = one descriptor element compared or one wire round trip. Non-trivial: every descriptor element (each is a distinct obligation); round trips with >= 3 populated fields. Distinct = distinct element path / distinct message bytes. Every enum value's Go form describes itself as its own enum and prints its own name.")
 	rec.Assume("the .proto sources are parsed by a small proto3 parser in the harness (no protoc offline); it covers the subset the two files use")
 	ev.Main(m, rec)
 }
